@@ -1530,10 +1530,13 @@ Qed.
 Lemma wsum_mono : forall R j j', j <= j' -> wsum R j <= wsum R j'.
 Proof. intros R j j' H. induction H; [lia|]. etransitivity; [exact IHle|apply wsum_step]. Qed.
 
+Lemma list_sum_cons : forall x l, list_sum (x :: l) = x + list_sum l.
+Proof. reflexivity. Qed.
+
 Lemma list_sum_le : forall (A : Type) (f g : A -> nat) (l : list A),
   (forall x, In x l -> f x <= g x) -> list_sum (map f l) <= list_sum (map g l).
 Proof.
-  intros A f g. induction l as [|x l IH]; intros H; [cbn; lia|]. cbn [map]. rewrite !(list_sum_app [_]). 
+  intros A f g. induction l as [|x l IH]; intros H; [cbn; lia|]. cbn [map]. rewrite !list_sum_cons.
   assert (f x <= g x) by (apply H; now left). assert (list_sum (map f l) <= list_sum (map g l)) by (apply IH; intros; apply H; now right).
   lia.
 Qed.
@@ -1541,7 +1544,7 @@ Qed.
 Lemma list_sum_bound : forall (A : Type) (f : A -> nat) (b : nat) (l : list A),
   (forall x, In x l -> f x <= b) -> list_sum (map f l) <= List.length l * b.
 Proof.
-  intros A f b. induction l as [|x l IH]; intros H; [cbn; lia|]. cbn [map List.length]. rewrite (list_sum_app [_]).
+  intros A f b. induction l as [|x l IH]; intros H; [cbn; lia|]. cbn [map List.length]. rewrite list_sum_cons.
   assert (f x <= b) by (apply H; now left). assert (list_sum (map f l) <= List.length l * b) by (apply IH; intros; apply H; now right).
   lia.
 Qed.
@@ -1581,7 +1584,7 @@ Proof.
   intros w ft cwd dir E R HE HR. set (n := List.length E).
   induction fuel as [|f IH]; intros lin q Hlin Hq Hpot.
   - destruct q as [|it q]; [cbn; discriminate|]. exfalso.
-    unfold pot in Hpot. cbn [map list_sum] in Hpot.
+    unfold pot in Hpot. cbn [map] in Hpot. rewrite list_sum_cons in Hpot.
     assert (P := wsum_pos R (n - dist (Aof cwd lin it))). lia.
   - destruct q as [|[[bt name] par] q']; [cbn; discriminate|].
     cbn [drain_g]. cbv zeta.
@@ -1608,7 +1611,7 @@ Proof.
     + intros x. unfold lin'. cbn [lin_get]. destruct (String.eqb k x); [|apply Hlin].
       apply incl_app; [apply Hlin|exact ancE].
     + apply Forall_app. split; [exact Hq'|]. apply Forall_forall. intros c Hc. rewrite (Hpar c Hc). exact kE.
-    + unfold pot in *. rewrite map_app, list_sum_app. cbn [map list_sum] in Hpot.
+    + unfold pot in *. rewrite map_app, list_sum_app. cbn [map] in Hpot. rewrite list_sum_cons in Hpot.
       change (Aof cwd lin (bt, name, par)) with anc in Hpot.
       assert (H1 : list_sum (map (fun it => wsum R (n - dist (Aof cwd lin' it))) q')
                    <= list_sum (map (fun it => wsum R (n - dist (Aof cwd lin it))) q')).
